@@ -884,8 +884,16 @@ def open_compares(run) -> List[Tuple[Any, Any]]:
     out = []
     if run is None:
         return out
+    def splittable(a, b):
+        # two input-dependent terms, or a *compound* term against a constant (a threshold on a computed quantity: both sides are
+        # possible). A bare input against a constant is not split: the sign domain of the inputs (sigma > 0, tau >= 0) is not modelled here.
+        if a[0] != "const" and b[0] != "const":
+            return True
+        other = b if a[0] == "const" else a
+        return other[0] not in ("const", "param")
+
     for a, b in run.world.I.open_cmps:
-        if a[0] != "const" and b[0] != "const" and (a, b) not in out and (b, a) not in out:  # not against a constant: the sign domain of the inputs is not modelled here
+        if splittable(a, b) and (a, b) not in out and (b, a) not in out:
             out.append((a, b))
     for ev in run.world.I.events:
         if ev.kind != "branch" or ev.data.get("tv") is not None:
@@ -894,7 +902,7 @@ def open_compares(run) -> List[Tuple[Any, Any]]:
         s = getattr(v, "sym", None)
         if isinstance(v, Bool) and isinstance(s, tuple) and len(s) == 4 and s[0] == "cmp" and s[2] is not None and s[3] is not None:
             a, b = s[2], s[3]
-            if a[0] != "const" and b[0] != "const":
+            if splittable(a, b):
                 if (a, b) not in out and (b, a) not in out:
                     out.append((a, b))
     return out
